@@ -230,6 +230,57 @@ def value_must_be_consumed(view, start, local, path, depth=0):
     return None
 
 
+ADDBACK = re.compile(r"^conditional_(adc|add)(_assign)?$")
+SUBTRACT = re.compile(r"^(sbb|sbb_assign|borrowing_sub|conditional_sbb_assign|conditional_sbb)$")
+
+
+def _slice_calls(view, op, limit=400):
+    """call terminators in the backward data-dependence slice of an operand: [(block, term)]"""
+    from .subcmp import _ops_of_rv, _locals_of
+    seen = set()
+    work = list(_locals_of(op))
+    out = []
+    while work and len(seen) < limit:
+        l = work.pop()
+        if l in seen:
+            continue
+        seen.add(l)
+        for d in view.defs.get(l, []):
+            t = d.get("term")
+            if t is not None:
+                out.append((d["bb"], t))
+                for a in t["args"]:
+                    work += _locals_of(a)
+            elif d.get("rv"):
+                for o in (_ops_of_rv(d["rv"]) or []):
+                    work += _locals_of(o)
+    return out
+
+
+def _root_keys(prov, op):
+    return {(r.kind, r.what, r.site) for r in mir.uniq_roots(prov.roots_of_operand(op)) if r.kind in ("param", "call")}
+
+
+def is_addback(view, bi, t):
+    """`x.conditional_adc_assign(p, c)` where `c` derives from the borrow of the subtraction that produced `x` (in place
+    on the same receiver, or `x` is that subtraction's result): the classic subtract / add-the-modulus-back-on-borrow step.
+    The carry out of the add-back is, by construction, the cancellation of that borrow — discarding it is the idiom."""
+    seg = mir.last_seg(mir.callee_decl(t)) or ""
+    if not ADDBACK.match(seg) or len(t["args"]) < 3:
+        return None
+    prov = mir.Provenance(view)
+    recv = _root_keys(prov, t["args"][0])
+    for cb, ct in _slice_calls(view, t["args"][-1]):
+        cseg = mir.last_seg(mir.callee_decl(ct)) or ""
+        if not SUBTRACT.match(cseg) or (cb, ct) == (bi, t) or not ct["args"]:
+            continue
+        if ("call", mir.callee_name(ct), (cb, "term")) in recv:
+            return cseg        # the receiver is the difference returned by that subtraction
+        if cseg.endswith("_assign") and recv & _root_keys(prov, ct["args"][0]):
+            return cseg        # subtraction in place on the same receiver
+    return None
+
+
 def run(facts, report, config, scope_prefix=("modular::", "<modular::"), exclude_prefix=(), table="c08.toml",
         auto_wrapping=False, counter="carry_returning_calls_in_modular", stale_check=True, body_filter=None):
     """Reviewed drops are keyed by (function, callee) with a count `drops` (default 1): an edit that adds or
@@ -284,6 +335,12 @@ def run(facts, report, config, scope_prefix=("modular::", "<modular::"), exclude
                 report.add(Instance("%s|call%d" % (k0, n), "carry", "ok",
                                     "auto: wrapping form — discarding the carry/borrow is its definition",
                                     t["s"], {"body": b["id"]}), config)
+                continue
+            ab = is_addback(view, bi, t)
+            if ab:
+                report.add(Instance("%s|call%d" % (k0, n), "carry", "ok",
+                                    "auto: add-back gated by the borrow of the `%s` that produced the receiver — the carry out "
+                                    "cancels that borrow" % ab, t["s"], {"body": b["id"]}), config)
                 continue
             dropped.setdefault(k0, []).append((seg, t["s"]))
         # a full-width carry (the high word of a multiply-accumulate) must be propagated with a carrying add: summing it
